@@ -4,6 +4,7 @@ import (
 	"math/rand"
 	"strings"
 
+	"cuelabs.dev/go/oci/ociregistry"
 	"verif/harness/hx"
 )
 
@@ -114,10 +115,51 @@ func generate(rn *runner, cfg *hx.Config) {
 			}
 		}
 	}
-	// 3. seeded random error trees through random carriers
-	n := 330
+	// 3. messages that are empty, or exactly / nearly a prefix the code adds (the first wire
+	//    message is empty or the bare code text)
+	for _, cn := range []string{"GetManifest", "DeleteTag", "Tags", "PushManifest", "ResolveBlob", "PatchClose"} {
+		for _, e := range []*ErrSpec{
+			{Kind: "plain", Msg: ""},
+			{Kind: "plain", Msg: "unknown"},
+			{Kind: "plain", Msg: "unknown: "},
+			{Kind: "plain", Msg: "unknown: unknown"},
+			{Kind: "plain", Msg: "500 Internal Server Error: "},
+			{Kind: "plain", Msg: "500 Internal Server Error: unknown"},
+			{Kind: "wire", Code: "SOME_CODE", Msg: ""},
+			{Kind: "wire", Code: "SOME_CODE", Msg: "some code"},
+			{Kind: "wire", Code: "SOME_CODE", Msg: "some code: "},
+			{Kind: "wire", Code: "SOME_CODE", Msg: "some code: some code"},
+			{Kind: "wire", Code: "BLOB_UNKNOWN", Msg: ""},
+			{Kind: "wire", Code: "BLOB_UNKNOWN", Msg: "404 Not Found: blob unknown"},
+			{Kind: "wire", Code: "", Msg: ""},
+			{Kind: "wire", Code: "", Msg: "(no code)"},
+			{Kind: "http", Status: 404, Inner: &ErrSpec{Kind: "plain", Msg: ""}},
+			{Kind: "http", Status: 418, Inner: &ErrSpec{Kind: "wire", Code: "TEAPOT", Msg: ""}},
+			{Kind: "wrap", Prefix: "unknown: ", Inner: &ErrSpec{Kind: "plain", Msg: ""}},
+			{Kind: "wrap", Prefix: "", Inner: &ErrSpec{Kind: "wire", Code: "DENIED", Msg: ""}},
+		} {
+			rn.scenario(scenario{Err: e, Carrier: cn, Hops: maxHops}, "empty-message")
+		}
+	}
+	// 4. the client's 8 KiB limit on error bodies: bodies of exactly 8192 and 8193 bytes, and a larger one
+	for _, cn := range []string{"GetTag", "ResolveTag", "CommitCommit"} {
+		for _, target := range []int{8192, 8193, 9000} {
+			one, _ := ociregistry.MarshalError(ociregistry.NewError("a", "BLOB_UNKNOWN", nil))
+			n := target - len(one) + 1
+			e := &ErrSpec{Kind: "wire", Code: "BLOB_UNKNOWN", Msg: strings.Repeat("a", n), Detail: `{"k":1}`}
+			if target == 8192 {
+				e.Detail = ""
+			} else {
+				withDetail, _ := ociregistry.MarshalError(ociregistry.NewError("a", "BLOB_UNKNOWN", []byte(e.Detail)))
+				e.Msg = strings.Repeat("a", target-len(withDetail)+1)
+			}
+			rn.scenario(scenario{Err: e, Carrier: cn, Hops: maxHops}, "body-limit")
+		}
+	}
+	// 5. seeded random error trees through random carriers
+	n := 300
 	if cfg.Thorough() {
-		n = 12000
+		n = 4000
 	}
 	for i := 0; i < n; i++ {
 		e := randErr(rnd, rnd.Intn(4))
